@@ -7,6 +7,7 @@ import (
 	"os"
 	"path/filepath"
 	"runtime"
+	"slices"
 	"strings"
 
 	"github.com/go-git/go-billy/v6"
@@ -292,7 +293,14 @@ func (sfs *worktreeFilesystem) validWritePath(paths ...string) error {
 // in unlink_entry (entry.c).
 func (sfs *worktreeFilesystem) validNoLeadingSymlink(paths ...string) error {
 	for _, p := range paths {
+		var dirs []string
 		for dir := filepath.Dir(p); dir != "." && dir != "" && dir != string(filepath.Separator); dir = filepath.Dir(dir) {
+			dirs = append(dirs, dir)
+		}
+		// Shallowest first, so that no Lstat is issued below a directory
+		// that turns out to be a symlink (the probe itself would otherwise
+		// be resolved through the link).
+		for _, dir := range slices.Backward(dirs) {
 			fi, err := sfs.Filesystem.Lstat(dir)
 			if err != nil {
 				// A missing ancestor is materialised as a real directory.
